@@ -342,34 +342,67 @@ def run(ctx):
         ub = _roles.ib_paths(prog, R["update"])
         ws5 = phonetic.field_writes(prog, R["update"], mods, body=ub)
         ac5 = sorted({bb for (fl, op, bb, w) in ws5 if fl[:2] == (R["sug_field"], R["user_autocorrect"]) and op == "assign"})
-        cmp_found = None
-        for bb in ac5:
-            for (d, pol, sw_) in guards_of(ub, bb):
-                if d.k == "call" and any(self_path(x) == (ts,) for a_ in d.a[1] for x in a_.walk()):
-                    nm = d.a[0].split("::")[-1]
-                    if nm in ("ne", "eq", "gt", "lt", "ge", "le") and cmp_found is None:
-                        cmp_found = (nm, bb, pol)
-        if cmp_found is None:
-            r5.undecidable("gate-compare", "no comparison of the stored modification time guards the reload", common.fn_line(prog, R["update"]))
-        elif cmp_found[0] in ("ne", "eq"):
-            r5.ok("gate-compare", "reload ⇐ the file's modification time differs from the stored one")
-        else:
-            r5.violation("gate-compare", "the reload is gated by an ordering comparison (%s) of modification times: a file replaced by an older one (restored backup, cp -p) is never "
-                         "loaded, a newly created context would load it" % cmp_found[0], site_of(ub, cmp_found[1]))
-        # removal: some assignment of the map lies on the failure edge of File::open
-        opens = [s_ for s_ in ub.rblocks if ub.blocks[s_]["term"]["k"] == "switch"
-                 and contains_call(strip_refs(ub.expr_operand(ub.blocks[s_]["term"]["discr"])), lambda n: n.endswith("File::open")) is not None]
-        removed_ok = False
-        for s_ in opens:
-            for (node, vals, tgt) in ub.switch_edges(s_):
-                is_err = vals == (1,) or (vals == "otherwise" and 1 not in [v for v, _ in ub.blocks[s_]["term"]["targets"]] and 0 in [v for v, _ in ub.blocks[s_]["term"]["targets"]])
-                if is_err and any(bb in ub.reachable_from(tgt) for bb in ac5):
-                    removed_ok = True
-        if not opens:
-            r5.undecidable("removed-file", "no File::open result is branched on in update-engine", common.fn_line(prog, R["update"]))
-        elif removed_ok:
-            r5.ok("removed-file", "when the file cannot be opened any more the map is replaced (as the constructor starts with an empty one)")
-        else:
-            r5.violation("removed-file", "when the user auto-correct file cannot be opened update-engine keeps the old entries; a newly created context has none",
-                         site_of(ub, opens[0]))
+        # path-sensitive: every path that replaces the map does so because the stored time differs from the file's (eq / ne comparison) or because
+        # the file cannot be opened any more; helpers returning Option<…> are followed with their known variants
+        from engine.analyses import sym_paths
+        try:
+            paths5 = sym_paths(ub, 0, 20000)
+        except PathLimit as e:
+            paths5 = None
+            r5.undecidable("gate-compare", "cannot enumerate the paths of update-engine: %s" % e, common.fn_line(prog, R["update"]))
+        if paths5 is not None:
+            kinds = set()
+            ordering = None
+            ungated = None
+            removed_ok = False
+            n_assign = 0
+            for path, env, conds in paths5:
+                on = [bb for (bb, vals) in path]
+                if not (set(on) & set(ac5)):
+                    continue
+                n_assign += 1
+                first_assign = min(on.index(bb) for bb in ac5 if bb in on)
+                gate = None
+                for (d, vals, allv, ty, sbb) in conds:
+                    if sbb not in on or on.index(sbb) > first_assign:
+                        continue
+                    d0 = strip_refs(d)
+                    neg = False
+                    while d0.k == "un" and d0.a[0] == "Not":
+                        d0 = strip_refs(d0.a[1])
+                        neg = not neg
+                    if d0.k == "call" and any(self_path(x) == (ts,) for a_ in d0.a[1] for x in a_.walk()):
+                        nm = d0.a[0].split("::")[-1]
+                        if nm in ("ne", "eq"):
+                            gate = gate or "differs"
+                        elif nm in ("gt", "lt", "ge", "le"):
+                            ordering = (nm, sbb)
+                            gate = gate or "ordering"
+                    if contains_call(d0, lambda n: n.endswith("File::open")) is not None and d0.k == "discr":
+                        is_err = vals == (1,) or (vals == "otherwise" and 1 not in allv and 0 in allv)
+                        if is_err:
+                            gate = "removed"
+                            removed_ok = True
+                if gate is None:
+                    ungated = ungated or path
+                kinds.add(gate)
+            if ordering is not None:
+                r5.violation("gate-compare", "the reload is gated by an ordering comparison (%s) of modification times: a file replaced by an older one (restored backup, cp -p) is never "
+                             "loaded, a newly created context would load it" % ordering[0], site_of(ub, ordering[1]))
+            elif n_assign == 0 or (ungated is not None and "differs" not in kinds):
+                r5.undecidable("gate-compare", "no comparison of the stored modification time guards the reload", common.fn_line(prog, R["update"]))
+            elif ungated is not None:
+                r5.violation("gate-compare", "a path of update-engine replaces the map without comparing the stored modification time (the file is re-read on every call)",
+                             site_of(ub, [bb for bb, _ in ungated if bb in ac5][0]))
+            else:
+                r5.ok("gate-compare", "reload ⇐ the file's modification time differs from the stored one (%d replacing paths)" % n_assign)
+            opens = [s_ for s_ in ub.rblocks if ub.blocks[s_]["term"]["k"] == "switch"
+                     and contains_call(strip_refs(ub.expr_operand(ub.blocks[s_]["term"]["discr"])), lambda n: n.endswith("File::open")) is not None]
+            if not opens:
+                r5.undecidable("removed-file", "no File::open result is branched on in update-engine", common.fn_line(prog, R["update"]))
+            elif removed_ok:
+                r5.ok("removed-file", "when the file cannot be opened any more the map is replaced (as the constructor starts with an empty one)")
+            else:
+                r5.violation("removed-file", "when the user auto-correct file cannot be opened update-engine keeps the old entries; a newly created context has none",
+                             site_of(ub, opens[0]))
     r5.floor(2, "gate-compare, removed-file")
